@@ -97,7 +97,7 @@ def run(ctx, log):
     for _ in range(1000 if ctx.quick else 20000):
         sessions.append([rng.choice(pool) for _ in range(rng.randint(4, 12))])
     sessions += [["1 / 0; stel c = 5", "c"], ["stel a = 1", "a = 2; [1][3]; stel d = a", "d"], ["stel c = 1 / 0", "c"], ["stel a = 1", "a = 7; ja + 1", "a"],
-                 ["stel a = 10", "stel b = 20; stel c = 30; a = a + 1; c / 0", "a", "b", "c"], ["stel a = 1", "stel e = 4; a = e; ja + 1", "e + a"], ["stel x = 3", "functie dubbel(n) { n * 2 }; dubbel(x)", "functie oppervlak(b, h) { stel o = b * h; o }; oppervlak(x, 4)"],
+                 ["stel a = 10", "stel b = 20; stel c = 30; a = a + 1; c / 0", "a", "b", "c"], ["stel a = 1", "functie f(n) { als n < 1 { antwoord 1 / 0 } f(n - 1) } f(3)", "functie g(n) { als n < 1 { antwoord ja + 1 } g(n - 1) } g(200)", "functie d(n) { als n < 1 { antwoord a } d(n - 1) } d(300)"], ["stel a = 1", "stel e = 4; a = e; ja + 1", "e + a"], ["stel x = 3", "functie dubbel(n) { n * 2 }; dubbel(x)", "functie oppervlak(b, h) { stel o = b * h; o }; oppervlak(x, 4)"],
                  ["stel x = 3", "functie dubbel(n) { n * 2 }; dubbel(onbekend)", "functie oppervlak(b, h) { stel o = b * h; o }; oppervlak(x, 4)"],
                  ["{ stel a = 5 }", "stel b = 1 / 0", "b"], ["{ stel a = 5 }; stel b = 1 / 0", "b"], ["stel q = 1", "als ja { stel t = 41; t }", "stel r = ja + 1", "r"]]
     budgets = [100000] * len(sessions)
@@ -116,6 +116,7 @@ def run(ctx, log):
         for _ in range(6 if ctx.quick else 60):
             pre = [rng.choice(scalar_alpha_pre) for _ in range(rng.randint(1, 3))]
             post = [rng.choice(scalar_alpha_pre + ["functie k(n) { n + a } k(2)", "functie s(n) { als n < 1 { antwoord 0 } n + s(n - 1) } s(100)"]) for _ in range(rng.randint(2, 4))]
+            post.append("functie d(n) { als n < 1 { antwoord 0 } d(n - 1) } d(%d)" % rng.choice([40000, 60000, 65000]))
             with_f = vlib.nlh("session", ["10000000 " + " ".join(vlib.hexs(l) for l in pre + [bf] + post)], tag="c17d", timeout=120)[0]
             without = vlib.nlh("session", ["10000000 " + " ".join(vlib.hexs(l) for l in pre + post)], tag="c17d", timeout=120)[0]
             a = [x.strip() for x in with_f.split(" ;; ") if x.strip()]
